@@ -257,7 +257,7 @@ check("C19", "every setting has its documented effect", "exploration",
       "Trusted: the behaviour table in c19_test.go (from the flag help text and config.go comments); testing/synctest for layer 3; a request exactly one second after its window opened may be counted either way; "
       "the microsecond window between signal.Notify and Server.Run storing its http.Server cannot be hit from outside the process (not claimed).",
       "DESIGN.md §3 C19",
-      [R("^TestC19Defaults$", 20000, 1000000), R("^TestC19Rate$", 8000, 400000), R("^TestC19CLI$", 24, 640, shards=(6, 16), timeout=(900, 3300))], variant="go126")
+      [R("^TestC19Defaults$", 20000, 1000000), R("^TestC19Rate$", 8000, 400000), R("^TestC19CLI$", 24, 640, shards=(6, 16), timeout=(900, 3300)), R("^TestC19GC$", 1200, 24000), R("^TestC19Toggle$", 3000, 60000)], variant="go126")
 
 NOT_APPLICABLE = {}
 
